@@ -290,6 +290,56 @@ DETAIL = 'call log: ' + repr([(x['name'], x['kwargs']) for x in VP.LOG])
                       and all(kw[f"a{i}"] is vals[i] for i in range(nargs)) and f.info["name"].v is p.st.cell(p.ex.self_ref).fields["_func_name"].v)
             u.oblige(p, f"call.args[{nargs}]", bool(ok), {"nargs": nargs}, rp)
         u.cover(f"call.cover[{nargs}]", ps, lambda p: p.kind == "return")
+        if nargs == 0:
+            continue
+        # HISTORY: the same model object is called at every readout step and by every run that shares the pipeline; between two
+        # calls a configuration value may be changed through the model's Arguments (what Processor.set / a parameter sweep do).
+        # The later call receives the values configured AT THAT CALL: nothing is remembered from the earlier one.
+        u.fn(f"{MF}::Arguments.__setitem__")
+        for how in ("item", "attribute"):
+            newval = VInt(z3.Int("changed_value"))
+            hist = {}
+
+            def setup_h(ex, nargs=nargs, vals=vals, how=how, newval=newval):
+                calls.clear()
+                hist.clear()
+                d = ex.st.alloc(HDict([(VStr(f"a{i}"), vals[i]) for i in range(nargs)]))
+                mf = ex.instantiate(ci, [], {"func": VStr(z3.String("func_name")), "name": VStr(z3.String("mname")), "arguments": d,
+                                             "enabled": VBool(z3.Bool("enabled"))}, Frame(None, ci.module))
+                ex.self_ref = mf
+                fr0 = Frame(None, ci.module)
+                try:
+                    ex.call_function(VFunc(fi), [mf, det], {}, fr0)                    # the earlier call
+                    argobj = ex.getattr(mf, "arguments", fr0)
+                    if how == "item":
+                        ex.call(ex.getattr(argobj, "__setitem__", fr0), [VStr(f"a{nargs - 1}"), newval], {}, fr0)
+                    else:
+                        ex.setattr(argobj, f"a{nargs - 1}", newval, fr0)
+                except PyExc as pe:
+                    hist["failed"] = ex.exc_class_name(pe.val)
+                hist["earlier_calls"] = len(calls)
+                return [mf, det], {}
+            rh = probe_replay("a later call of the same model receives the arguments as configured at that call", """
+VP.LOG.clear()
+det = VP.detector()
+m = ModelFunction(func='verif_probes.probe', name='m', arguments={'level': 3, 'option': 'foo'})
+m(det); m.arguments['level'] = 4; m(det); m.arguments.option = 'bar'; m(det)
+got = [x['kwargs'] for x in VP.LOG]
+VIOLATED = got != [{'level': 3, 'option': 'foo'}, {'level': 4, 'option': 'foo'}, {'level': 4, 'option': 'bar'}]
+DETAIL = 'arguments received by three successive calls (level changed before the 2nd, option before the 3rd): ' + repr(got)
+""")
+            ps = u.paths(fi, setup_h, cfg, label=f"ModelFunction.__call__[{nargs} args, after a change by {how}]")
+            for p in ps:
+                if p.kind != "return" or hist.get("failed"):
+                    u.oblige(p, f"call.args.after_change[{nargs},{how}].returns", False, {"failed": hist.get("failed")}, rh)
+                    continue
+                ok = len(calls) == 2 and hist.get("earlier_calls") == 1
+                if ok:
+                    f, a, kw = calls[1]
+                    want = vals[:-1] + [newval]
+                    ok = len(a) == 1 and a[0] is det and sorted(kw) == [f"a{i}" for i in range(nargs)] and all(kw[f"a{i}"] is want[i] for i in range(nargs))
+                u.oblige(p, f"call.args.after_change[{nargs},{how}]", bool(ok), {"nargs": nargs, "changed": f"a{nargs - 1}"}, rh)
+            u.cover(f"call.after_change.cover[{nargs},{how}]", ps, lambda p: p.kind == "return")
 
 
 # ---- 5. Processor.run_pipeline ------------------------------------------------------------------------
